@@ -894,6 +894,94 @@ func vfC16ParkedWrite(res *vfResult, iter int) {
 	p.Close()
 }
 
+// vfC16ParkedWriteDeadline: the transport stalls, a Write with a write deadline is interrupted by that deadline;
+// the transport recovers, the application clears the deadline and writes again. A deadline interrupts the call, not
+// the connection: nobody closed it, so the later Write must not report a closed connection and the peer must get the
+// payload. Real time (see vfC16ParkedWrite).
+func vfC16ParkedWriteDeadline(res *vfResult, iter int) {
+	variants := []string{"12-ecdsa", "13", "12-cid", "13-cid", "12-psk-cbc"}
+	cfg := vfC16Cfg(variants[iter%len(variants)])
+	co, so := cfg.Options(nil, nil)
+	n := vfNewNet()
+	p, err := vfNewPair(n, co, so)
+	res.Eval(1)
+	if err != nil {
+		return
+	}
+	if ce, se := p.Handshake(20 * time.Second); ce != nil || se != nil {
+		res.Count("parked_write_handshake_failed", 1)
+		p.Close()
+
+		return
+	}
+	x, y := p.C, p.S
+	if (iter/len(variants))%2 == 1 {
+		x, y = p.S, p.C
+	}
+	y.StartPump()
+	x.StartPump()
+	time.Sleep(50 * time.Millisecond)
+	replay := map[string]any{"iter": iter, "parked_deadline": true}
+	blk := make(chan struct{})
+	x.EP.mu.Lock()
+	x.EP.blockWrites = blk
+	x.EP.mu.Unlock()
+	_ = x.Conn.SetWriteDeadline(time.Now().Add(200 * time.Millisecond))
+	type ret struct {
+		err error
+		at  time.Duration
+	}
+	t0 := time.Now()
+	wr := make(chan ret, 1)
+	go func() { _, err := x.Conn.Write([]byte("stalled")); wr <- ret{err, time.Since(t0)} }()
+	var w ret
+	select {
+	case w = <-wr:
+	case <-time.After(10 * time.Second):
+		close(blk)
+		res.Violate("C16:deadline-did-not-interrupt-parked-write", "a Write parked in the transport did not return within 10 s although its write deadline was 200 ms; "+cfg.FP(), replay)
+		p.Close()
+
+		return
+	}
+	close(blk) // the transport accepts datagrams again
+	x.EP.mu.Lock()
+	x.EP.blockWrites = nil
+	x.EP.mu.Unlock()
+	res.Seen("x_deadline_write_results", vfErrNorm(w.err))
+	if w.err == nil || !vfIsTimeout(w.err) {
+		res.Count("parked_deadline_write_not_a_timeout", 1)
+	}
+	_ = x.Conn.SetWriteDeadline(time.Time{})
+	time.Sleep(300 * time.Millisecond)
+	marker := []byte(fmt.Sprintf("after-the-deadline-%d", iter))
+	_, err = x.Conn.Write(marker)
+	res.Count("writes_after_expired_deadline", 1)
+	if err != nil {
+		res.Violate("C16:connection-unusable-after-write-deadline:"+map[bool]string{true: "dtls13", false: "dtls12"}[cfg.Is13()],
+			fmt.Sprintf("a write deadline expired once on a stalled transport (that Write returned %v); after the deadline was cleared and the transport had recovered, Write returned %q on a connection nobody closed; %s",
+				w.err, err, cfg.FP()), replay)
+	} else {
+		got := false
+		for k := 0; k < 100 && !got; k++ {
+			for _, rd := range y.ReadsSnapshot() {
+				if bytes.Equal(rd, marker) {
+					got = true
+				}
+			}
+			if !got {
+				time.Sleep(20 * time.Millisecond)
+			}
+		}
+		if !got {
+			res.Violate("C16:payload-lost-after-write-deadline:"+map[bool]string{true: "dtls13", false: "dtls12"}[cfg.Is13()],
+				"a Write issued after an expired (and cleared) write deadline returned nil but the peer never read the payload; "+cfg.FP(), replay)
+		}
+	}
+	res.NonTrivial(fmt.Sprintf("parked-deadline/%d", iter))
+	p.Close()
+}
+
 // vfC16CloseRace: the peer closes; this side's read loop answers with close_notify, and that datagram is still
 // being written (socket slow for a moment) when the application calls Close here as well. One close_notify may
 // leave this endpoint. Real time, for the same reason as vfC16ParkedWrite.
@@ -969,12 +1057,15 @@ func TestVF_C16(t *testing.T) {
 				Case   vfC16Case `json:"case"`
 				Iter   *int      `json:"iter"`
 				Parked bool      `json:"parked"`
+				ParkDL bool      `json:"parked_deadline"`
 				Race   bool      `json:"race"`
 			} `json:"replay"`
 		}
 		vfLoadReplay(t, &rf)
 		vfDumpWire = true
-		if rf.Replay.Iter != nil && rf.Replay.Race {
+		if rf.Replay.Iter != nil && rf.Replay.ParkDL {
+			vfC16ParkedWriteDeadline(res, *rf.Replay.Iter)
+		} else if rf.Replay.Iter != nil && rf.Replay.Race {
 			vfC16CloseRace(res, *rf.Replay.Iter)
 		} else if rf.Replay.Iter != nil && rf.Replay.Parked {
 			vfC16ParkedWrite(res, *rf.Replay.Iter)
@@ -993,6 +1084,7 @@ func TestVF_C16(t *testing.T) {
 	vfBubbles(t, len(cases), func(t *testing.T, i int) { vfC16Run(t, res, cases[i]) })
 	vfParallel(vfPick(10, 100), func(_, i int) { vfC16ParkedWrite(res, i) })
 	vfParallel(vfPick(20, 200), func(_, i int) { vfC16CloseRace(res, i) })
+	vfParallel(vfPick(10, 100), func(_, i int) { vfC16ParkedWriteDeadline(res, i) })
 	ns := vfPick(150, 3000)
 	vfParallel(ns, func(_, i int) { vfC16Stress(res, i) })
 	res.Sample(map[string]any{"placements": len(cases), "stress_iterations": ns, "x_read_results": res.SetSize("x_read_results")})
@@ -1002,6 +1094,7 @@ func TestVF_C16(t *testing.T) {
 	res.Floor("stress_iterations", int64(ns*8/10))
 	res.Floor("parked_writes_checked", 8)
 	res.Floor("close_races_checked", 15)
+	res.Floor("writes_after_expired_deadline", 8)
 	res.Finish(t)
 }
 
